@@ -35,7 +35,7 @@ reg(C12Check(
     assumptions=[
         "messages are what protobuf decoding can produce (no nil entries in repeated fields, no nil inner message of a set oneof arm)",
         "the Subscribe handler is given a context carrying a gRPC peer (real gRPC always attaches one)",
-        "cache created without future-timestamp threshold; no target is registered under the empty name (an operator action; with one, joinPrefixAndPath can slice an empty slice -- theorem ingest_total_needs_named_targets, family ingest-emptyname compares the model's panic)",
+        "cache created without future-timestamp threshold (options WithServerName, one 10 ns latency window and DisableEventDrivenEmulation are explored); no target is registered under the empty name (an operator action; with one, joinPrefixAndPath can slice an empty slice -- theorem ingest_total_needs_named_targets, family ingest-emptyname compares the model's panic)",
         "single goroutine per entry point (panics inside goroutines spawned by the code under test after a request was accepted are outside what the harness can observe)",
         "Update.duplicates is 0 in the generated messages (proto.Equal is modelled structurally, floats with == and NaN = NaN)",
     ],
